@@ -375,6 +375,45 @@ def capture_origin(run, body, cap_name):
     return None
 
 
+def subst_env(run, cb, e):
+    """Rewrite the captured-environment places of closure `cb` inside expression `e` into the expressions the parent captured."""
+    if isinstance(e, tuple):
+        if len(e) == 3 and e[0] == "field" and isinstance(e[1], tuple) and (e[1] == ("env",) or (e[1][0] in ("deref", "ref") and e[1][1:] and e[1][1] == ("env",))):
+            po = capture_origin(run, cb, str(e[2]))
+            if po is not None:
+                return po[1]
+        return tuple(subst_env(run, cb, x) for x in e)
+    if isinstance(e, list):
+        return [subst_env(run, cb, x) for x in e]
+    return e
+
+
+def comparison_through_option(run, body, cond):
+    """`opt.is_some_and(|c| a <rel> c)` (or is_none_or) as a comparison of the parent's terms: (rel, lhs, rhs, kind) where the
+    closure parameter is replaced by `(opt as Some).0` and captured places by what the parent captured.  kind = 'some_and' (the
+    switch's true edge means Some and rel) or 'none_or' (true edge means None or rel).  None when `cond` has another shape."""
+    c = strip(cond)
+    if not (c[0] == "call" and c[1].fn in ("core::option::Option::<T>::is_some_and", "core::option::Option::<T>::is_none_or") and len(c[2]) == 2):
+        return None
+    clo = strip(c[2][1])
+    cb = run.facts.body(clo[1].get("def")) if clo[0] == "agg" and clo[1].get("def") else None
+    if cb is None:
+        return None
+    rets = cb.return_defs()
+    if len(rets) != 1:
+        return None
+    cm = q.comparison(rets[0][1])
+    if not cm:
+        return None
+    rel, l, r = cm
+    payload = ("field", ("downcast", c[2][0], "Some"), "0")
+    def lift(x):
+        if any(y[0] == "arg" and y[1] == 2 for y in walk(x)):
+            return payload
+        return subst_env(run, cb, x)
+    return (rel, lift(l), lift(r), "some_and" if c[1].fn.endswith("is_some_and") else "none_or")
+
+
 def denotes_field(run, body, e, field, depth=0):
     """Does expression `e` (in `body`) carry the value of a struct field called `field` (e.g. ReadOptions.limit), directly,
     through a precise capture (`options__limit`) or through a capture of a local copy (`let limit = options.limit`)?"""
